@@ -28,6 +28,7 @@ func defC11b(mode int) *ph.Def {
 		Cmds: []*ph.CmdDef{
 			{Name: "c", Opts: []ph.OptDef{{Name: "creq", Kind: ph.Str, Required: true, Env: "VERIF_C11_CREQ"}, {Name: "cq2", Kind: ph.Bool, Required: true, ReqMsg: "cq2 please"}, {Name: "copt", Kind: ph.StrOpt, Required: true, DefS: "d", ReqMsg: "copt wanted"}},
 				Cmds: []*ph.CmdDef{{Name: "e", Opts: []ph.OptDef{{Name: "ereq", Kind: ph.Int, Required: true, ReqMsg: "ereq is mandatory"}}}}},
+			{Name: "w", Unset: true, Unknown: 3, Opts: []ph.OptDef{{Name: "wo", Kind: ph.Bool}}}, // wrapper: inherits nothing
 		},
 	}}
 }
@@ -42,7 +43,24 @@ func c11Judge(pc *parserCase, verbose bool) ([]string, map[string]bool) {
 		printCase(pc, o, ex)
 		fmt.Printf("reference : help=%v missing=%v level=%q\n", ex.HelpCalled, ex.Missing, ex.Level)
 	}
-	if o.Panic != "" || o.Hang || len(ex.Unspec) > 0 {
+	if o.Panic != "" || o.Hang {
+		return nil, flags
+	}
+	if len(ex.Unspec) == 1 && ex.Unspec[0] == "U17" && !ex.Err && !o.HasErr {
+		// the help option was given above an UnsetOptions wrapper: which level's help is shown is not stated, but help
+		// was requested - no user function runs and Dispatch says so
+		flags["in_domain"] = true
+		flags["help_above_wrapper"] = true
+		var out []string
+		if len(o.Calls) != 0 {
+			out = append(out, fmt.Sprintf("help option given before a wrapper command: user function %v ran", callPaths(o)))
+		}
+		if !o.DIsHelp {
+			out = append(out, fmt.Sprintf("help option given before a wrapper command: Dispatch returned %q, want ErrorHelpCalled", o.DErr))
+		}
+		return out, flags
+	}
+	if len(ex.Unspec) > 0 {
 		return nil, flags
 	}
 	helpName := pc.Def.Help
@@ -217,6 +235,7 @@ func init() {
 				depth = 5
 			}
 			alpha := []string{"--rreq=1", "--r1=1", "--rr=1", "--creq=1", "--cr=1", "--cq2", "--copt", "--copt=1", "--ereq=1", "--er=1", "c", "e", "n", "help", "--help", "--he", "--?", "zzz", "--v"}
+			ext := []string{"w", "--wo"} // an UnsetOptions wrapper command
 			var defs []*ph.Def
 			envOf := map[*ph.Def]map[string]string{}
 			for mode := 0; mode < 3; mode++ {
@@ -229,7 +248,7 @@ func init() {
 				}
 			}
 			c.Res.Bounds = map[string]any{"L": depth, "alphabet": alpha, "definitions": len(defs)}
-			sw := &sweep{c: c, defs: defs, alpha: alpha, depth: depth}
+			sw := &sweep{c: c, defs: defs, alpha: alpha, ext: ext, depth: depth}
 			sw.visit = func(def *ph.Def, argv []string) {
 				res := c.Res
 				pc := &parserCase{Check: "C11", Def: def, Env: envOf[def], Argv: argv, Dispatch: true}
@@ -257,6 +276,6 @@ func init() {
 		},
 		Replay: replayParser,
 		GateCounts: []string{"in_domain_cases", "in_domain_root_required_missing", "in_domain_command_required_missing", "in_domain_help_option", "in_domain_help_with_missing_required",
-			"in_domain_help_command", "in_domain_help_topic", "in_domain_help_unknown_topic", "in_domain_all_supplied", "in_domain_second_round"},
+			"in_domain_help_command", "in_domain_help_topic", "in_domain_help_unknown_topic", "in_domain_all_supplied", "in_domain_second_round", "in_domain_help_above_wrapper"},
 	})
 }
